@@ -2145,8 +2145,16 @@ fn root_main(w: Arc<World>) {
             i.phase = pi;
             i.root_stage = format!("phase {} root actions", pi);
         });
+        let mut late_raises: Vec<RootAct> = vec![];
         for act in phase.root.iter() {
             if phase.root_late && matches!(act, RootAct::Despawn) {
+                continue;
+            }
+            // a raise of the maximum through the public setter is deferred in the same way: it then runs while the callers of the
+            // phase are making their scheduling calls (a raise only: while the maximum is being lowered, a thread that a racing
+            // call creates under the old maximum is no violation, so no sound bound could be stated for the spawn oracle)
+            if phase.root_late && matches!(act, RootAct::SetPoolPublic { n, atomic: false } if (*n as usize) > w.with(|i| i.cur_max)) {
+                late_raises.push(act.clone());
                 continue;
             }
             match act {
@@ -2311,6 +2319,21 @@ fn root_main(w: Arc<World>) {
             }
         }
         if phase.root_late {
+            // raise the maximum while the callers of this phase are scheduling work: from the moment the call begins the new maximum
+            // is the bound for the spawn oracle (old <= new)
+            for act in late_raises.iter() {
+                if let RootAct::SetPoolPublic { n, .. } = act {
+                    if (*n as usize) > w.with(|i| i.cur_max) {
+                        w.with(|i| {
+                            i.cur_max = *n as usize;
+                            i.root_stage = "set_max_threads (a raise, concurrent with the callers)".to_string();
+                            i.stats.concurrent_raises += 1;
+                        });
+                        vthread::yield_now();
+                        sched.set_max_threads(*n as usize);
+                    }
+                }
+            }
             // despawn while the callers of this phase are scheduling work
             for act in phase.root.iter().filter(|a| matches!(a, RootAct::Despawn)) {
                 let _ = act;
